@@ -41,7 +41,7 @@ class C07(Prop):
     floors = {'quick': (200, 60), 'thorough': (4000, 1000)}
     must_reach = []
     quick_cases = 1500
-    thorough_cases = 150000
+    thorough_cases = 1000000
     shrink_data = False
 
     def gen(self, rng, ctx):
